@@ -41,6 +41,8 @@ def close_real(val, ref: RE, K: float = 4.0, float_floor: float = 0.0) -> bool:
         return False
     if not mpmath.isfinite(v):
         return False
+    if ref.val == 0 and float_floor and abs(v) < mpf(10) ** -50:
+        return True  # sympy's Float zero raised to a power etc. leaves 1e-80-sized dust
     # float_floor: sympy evaluates sub-expressions made of Float literals at the literals' own
     # 53-bit precision, so its "exact" evaluation carries float64-level noise
     return abs(v - ref.val) <= K * ref.err + (mpf(10) ** -40 + float_floor * U) * ref.mag + TINY
